@@ -42,7 +42,28 @@ EXTERNAL = {
     "numpy.zeros": lambda n, dtype=float: [0.0] * n,
     "pandas.DataFrame": _frame,
     "pandas.Series": lambda *a, **k: _series(*a, **k),
+    "pandas.concat": lambda *a, **k: _concat(*a, **k),
 }
+
+
+def _concat(objs, axis=0, sort=False, **kw):
+    from .framemodel import Frame, Ser, Unsupported, NAN
+
+    objs = list(objs)
+    if kw or axis != 1 or not all(isinstance(o, Ser) for o in objs):
+        raise Unsupported("concat other than series side by side")
+    index = []
+    for o in objs:
+        for l in o.index:
+            if l not in index:
+                index.append(l)
+    if sort:
+        index = sorted(index)
+    cols = {}
+    for n, o in enumerate(objs):
+        got = dict(zip(o.index, o.values))
+        cols[n] = [got.get(l, NAN) for l in index]
+    return Frame(cols, index)
 
 
 def _series(data=None, index=None, **kw):
@@ -308,6 +329,9 @@ class Interp:
                 if len(c.args) == 3:
                     return ev.eval(c.args[2])
                 raise EvalRaise("AttributeError", c)
+        if isinstance(f, ast.Attribute) and isinstance(f.value, ast.Name) and f.value.id == "dict" and f.attr == "fromkeys" and "dict" not in ev.env:
+            args, kwargs = self.args_of(ev, c)
+            return dict.fromkeys(*args)
         if isinstance(f, ast.Name) and f.id == "map" and len(c.args) == 2:
             target = ev.eval(c.args[0])
             if isinstance(target, (FuncRef, PartialRef, Closure)):
